@@ -41,23 +41,25 @@ type Run struct {
 	Cross   bool
 	t0      time.Time
 
-	mu          sync.Mutex
-	Results     []*OblResult
-	Violations  []string // printed lines
-	Known       []string
-	Undecided   []string
-	Assumptions map[string]bool
-	Trusted     map[string]bool
-	Notes       map[string]interface{}
-	Funcs       map[string]string // function under contract -> how (hand-written / schema / inlined)
-	Stale       []string
-	Bounded     []string
-	aborted     bool // a family was cut short after many failures: no second rounds
-	deadline    time.Time
-	overBudget  int
-	engineErr   []string
-	only        string
-	samples     []map[string]interface{}
+	mu            sync.Mutex
+	Results       []*OblResult
+	Violations    []string // printed lines
+	Known         []string
+	Undecided     []string
+	Assumptions   map[string]bool
+	Trusted       map[string]bool
+	Notes         map[string]interface{}
+	Funcs         map[string]string // function under contract -> how (hand-written / schema / inlined)
+	Stale         []string
+	Bounded       []string
+	unmodelled    map[string]bool
+	notApplicable map[string]int
+	aborted       bool // a family was cut short after many failures: no second rounds
+	deadline      time.Time
+	overBudget    int
+	engineErr     []string
+	only          string
+	samples       []map[string]interface{}
 }
 
 func newRun(prop, tier, verif, repo string, seed int64) *Run {
@@ -97,6 +99,7 @@ func (r *Run) discharge(vcs []*VC) []*OblResult {
 			defer wg.Done()
 			defer func() { <-sem }()
 			or := &OblResult{Name: vc.Name, Layer: vc.Layer, vc: vc}
+			r.noteExec(vc.Exec)
 			if len(vc.Query.Goals) == 0 {
 				// everything folded to true during generation
 				or.Status, or.Backend = "discharged", "simplifier"
@@ -191,6 +194,7 @@ func (r *Run) pipeline(n int, gen func(i int) (*VC, error)) []*OblResult {
 		}
 		or := &OblResult{Name: vc.Name, Layer: vc.Layer, vc: &VC{Name: vc.Name, Layer: vc.Layer, Replay: vc.Replay, Info: vc.Info, caseIdx: i}}
 		or.applied, or.inlined = vc.Exec.applied, vc.Exec.inlined
+		r.noteExec(vc.Exec)
 		if len(vc.Query.Goals) == 0 {
 			or.Status, or.Backend = "discharged", "simplifier"
 			out[i] = or
@@ -259,6 +263,35 @@ func (r *Run) pipeline(n int, gen func(i int) (*VC, error)) []*OblResult {
 		}
 	}
 	return res
+}
+
+// noteExec records what one symbolic run relied on: stubs (assumed contracts of
+// external functions), contracts declared not applicable at a site, writes to
+// unmodelled fields.
+func (r *Run) noteExec(x *Exec) {
+	if x == nil {
+		return
+	}
+	r.mu.Lock()
+	defer r.mu.Unlock()
+	for s := range x.stubsUsed {
+		r.Assumptions["stub (assumed contract of an external or log-only function): "+s] = true
+	}
+	if x.gobj != nil && x.ld.ghostField["Mem"] != 0 || len(x.ld.ghostField) > 0 && x.gobj != nil {
+		r.Assumptions["interface contract assumed for user-supplied Memory / IO / RETN- and RETI-handlers: Get returns the byte last Set (plain byte store), every method terminates, does not panic and does not touch the CPU object; proved for the bundled implementations (C15, C18)"] = true
+	}
+	for f := range x.unmodelledWritten {
+		if r.unmodelled == nil {
+			r.unmodelled = map[string]bool{}
+		}
+		r.unmodelled[f] = true
+	}
+	for _, n := range x.notApplicable {
+		if r.notApplicable == nil {
+			r.notApplicable = map[string]int{}
+		}
+		r.notApplicable[n]++
+	}
 }
 
 func firstLine(s string) string {
@@ -338,6 +371,31 @@ func (r *Run) finish(checkerCmd string) int {
 	for k, v := range r.Notes {
 		cov[k] = v
 	}
+	if len(r.unmodelled) > 0 {
+		cov["unmodelled_fields_written"] = keysOf(r.unmodelled)
+	}
+	if len(r.notApplicable) > 0 {
+		cov["contracts_not_applicable_at_a_site_body_verified_in_place"] = r.notApplicable
+	}
+	kinds := map[string]int{}
+	for _, o := range r.Results {
+		k := "helper or function contract"
+		switch {
+		case strings.Contains(o.Name, "/arm["):
+			k = "executeOne arm (opcode-byte case)"
+		case strings.Contains(o.Name, ".Step/"):
+			k = "Step case"
+		case strings.HasPrefix(o.Name, "spec."):
+			k = "lemma"
+		case strings.Contains(o.Name, "rel/"):
+			k = "relational (two executions)"
+		case o.Backend == "SSA/CFG analysis" || o.Backend == "call-graph/CFG analysis" || o.Backend == "SSA analysis" || o.Backend == "sha256":
+			k = "structural / ground"
+		}
+		kinds[k]++
+	}
+	cov["obligations_by_kind"] = kinds
+	as = append(as, "machine integers are bit-vectors of their exact width: no mathematical-integer abstraction; termination of loop-free code is structural; the solvers' unsat answers are trusted (cross-checked by a second solver in the thorough tier)")
 	ev := map[string]interface{}{
 		"property_id": r.Prop, "tier": r.Tier, "seed": r.Seed, "level": "proof",
 		"coverage": cov, "assumptions": as, "wall_s": float64(int(time.Since(r.t0).Seconds()*100)) / 100,
